@@ -33,7 +33,8 @@ MirrorInit == << Cnew("N", U), Ccreate("NL", 1, U, 0), Ccreate("LD", 1, U, 0), C
                  Ccreate("DP", 2, "a", 1), Ccreate("DP", 2, U, 1),
                  Ccreate("DP", 3, U, 1), Ccreate("DP", 3, U, 1),
                  Cchild(1, U, 2), Cchild(1, U, 2),
-                 Cconnect(1, OPin(1, 1)) >>
+                 Cconnect(1, OPin(1, 1)),
+                 Cchild(3, U, 1) >>          \* an instance of the definition WITHOUT ports (it has no outer pins)
 (* containment scope: two netlists, libraries and definitions moving around *)
 ContainInit == << Cnew("N", U), Cnew("N", U), Ccreate("NL", 1, U, 0), Ccreate("LD", 1, U, 0) >>
 (* definition body: ports, cables, children of one definition + a foreign one *)
@@ -237,17 +238,23 @@ VlogDeclInit == << Cnew("N", "n"), Ccreate("NL", 1, "work", 0),
                Cconnect(1, IPin(1)), Cconnect(2, IPin(2)), Cconnect(3, IPin(3)), Cconnect(4, IPin(4)), Cconnect(5, IPin(5)),
                Cconnect(6, IPin(6)), Cconnect(7, IPin(7)), Cconnect(8, IPin(8)), Cconnect(9, IPin(9)), Cconnect(10, IPin(10)),
                Csettopdef(1, 2), [op |-> "set_name", kind |-> "I", x |-> 1, val |-> "top"],
-               Cchild(2, "g", 1),
+               Cchild(2, "g", 1), Csetitem("D", 2, "k", "u"), Csetitem("D", 1, "k", "v"),     \* module attributes
                Cconnect(6, OPin(2, 1)), Cconnect(7, OPin(2, 2)), Cconnect(8, OPin(2, 3)), Cconnect(9, OPin(2, 4)),
                Cconnect(10, OPin(2, 5)) >>
 VlogCands(s, which) ==
     (IF "vlog_read" \in which
-     THEN {[op |-> "vlog_read", n |-> 1, opts |-> o] : o \in (IF "vlog_all" \in which THEN VlogOpts ELSE RandomSubset(12, VlogOpts))}
+     THEN {[op |-> "vlog_read", n |-> 1, opts |-> o] : o \in (IF "vlog_all" \in which THEN RandomSubset(400, VlogOpts) ELSE RandomSubset(12, VlogOpts))}
      ELSE {})
     \cup (IF "vlog_rt" \in which
           THEN {[op |-> "seq", calls |-> <<[op |-> "vlog_read", n |-> 1, opts |-> o],
                                           [op |-> "vlog_rt", n |-> 2, copts |-> [defparam |-> dp]]>>] :
                    <<o, dp>> \in RandomSubset(4, VlogOpts) \X BOOLEAN}
+               \* "optionally transformed": the netlist the reader produced is uniquified and flattened, then written
+               \cup {[op |-> "seq", calls |-> <<[op |-> "vlog_read", n |-> 1, opts |-> o], [op |-> "uniquify", n |-> 2],
+                                               [op |-> "flatten", n |-> 2], [op |-> "vlog_rt", n |-> 2, copts |-> [defparam |-> FALSE]]>>] :
+                   \* (leaf modules as `celldefine primitives: a plain module that only wires its ports is a pass-through
+                   \* cell to flatten, which dissolves it and leaves an emptied, unused definition behind)
+                   o \in RandomSubset(2, {oo \in VlogOpts : oo.escaped /\ oo.celldefine /\ ~oo.undeclared})}
           ELSE {})
 VlogScope(q) ==
       [init |-> VlogInit, ops |-> {"b:child", "b:connect", "set_k:I", "set_k:C", "props:I"},
@@ -330,16 +337,19 @@ ParseCands(s, which) ==
                 \cup {[op |-> "parse_text", n |-> 1, fmt |-> f, kind |-> kd, idx |-> i] :
                          <<kd, i>> \in {"trunc", "del", "dup", "repl", "illegal"} \X (0..399)}
                 \cup (IF f = "edif" THEN {[op |-> "parse_text", n |-> 1, fmt |-> f, kind |-> kd, idx |-> i] :
-                                              <<kd, i>> \in {"dangle", "crosslib"} \X (0..39)} ELSE {})
+                                              <<kd, i>> \in {"dangle", "crosslib", "sibling"} \X (0..39)} ELSE {})
                 \* the same corruptions handed to the reader while the process default is the EDIF policy
                 \cup {[op |-> "parse_text", n |-> 1, fmt |-> f, kind |-> kd, idx |-> 3 * i, pol |-> "EDIF"] :
                          <<kd, i>> \in {"trunc", "del", "repl"} \X (0..133)}
                 \cup {[op |-> "parse_text", n |-> 1, fmt |-> f, kind |-> "none", idx |-> 0, pol |-> "EDIF"]}
            ELSE {} : f \in {"edif", "verilog", "eblif"}}
 EdifOpts == [rename : BOOLEAN, case : {"same", "upper"}, bitorder : {"asc", "desc", "mixed"},
-             comments : BOOLEAN, skip_empty : BOOLEAN]
+             comments : BOOLEAN, skip_empty : BOOLEAN, swapids : BOOLEAN]
 FmtCands(s, which) ==
-    (IF "edif_read" \in which THEN {[op |-> "edif_read", n |-> 1, opts |-> o] : o \in EdifOpts} ELSE {})
+    (IF "edif_read" \in which
+     THEN {[op |-> "edif_read", n |-> 1, opts |-> o] :
+              o \in {oo \in EdifOpts : ~oo.swapids} \cup RandomSubset(12, {oo \in EdifOpts : oo.swapids})}
+     ELSE {})
     \cup (IF "edif_rt" \in which THEN {[op |-> "edif_rt", n |-> 1]} ELSE {})
 FmtScope(q) ==
       [init |-> FmtInit, ops |-> {"b:child", "b:connect", "reorder:NL", "reorder:LD", "set_attr:C", "props:I"},
@@ -398,10 +408,15 @@ CompareCands(s) ==
                      <<w, r, r2>> \in {<<ww, rr, r3>> \in side.W \X AllRefs(s) \X AllRefs(s) :
                          /\ rr.k # "p" /\ r3.k # "p" /\ WireOfRef(s, rr) = ww /\ WireOfRef(s, r3) = None
                          /\ (IF r3.k = "i" THEN r3.q \in side.Q ELSE r3.i \in side.I)}}
+        \* the last pin of a wire moved to the end of ANOTHER wire of the same cable
+        hops == {<<[op |-> "disconnect", w |-> w, pin |-> r], Cconnect(w2, r)>> :
+                     <<w, w2, r>> \in {<<ww, w3, rr>> \in side.W \X side.W \X AllRefs(s) :
+                         /\ ww # w3 /\ s.wireCable[ww] = s.wireCable[w3] /\ rr.k # "p" /\ WireOfRef(s, rr) = ww
+                         /\ s.wirePins[ww] # <<>> /\ s.wirePins[ww][Len(s.wirePins[ww])] = rr}}
     IN {Cmp(1, 2), Cmp(2, 1),
         [op |-> "seq", calls |-> <<Cclone("N", 1), Cmp(1, 3)>>], [op |-> "seq", calls |-> <<Cclone("N", 1), Cmp(3, 1)>>]}
        \cup {Seq2(e, 1, 2) : e \in edits} \cup {Seq2(e, 2, 1) : e \in edits}
-       \cup {[op |-> "seq", calls |-> <<m[1], m[2], Cmp(1, 2)>>] : m \in moves}
+       \cup {[op |-> "seq", calls |-> <<m[1], m[2], Cmp(1, 2)>>] : m \in moves \cup hops}
 
 (* a fixed small design with colliding names for the query product (the inputs of C13 are the queries) *)
 QInit == << Cnew("N", "n"), Ccreate("NL", 1, "l", 0), Ccreate("LD", 1, "a", 0), Ccreate("LD", 1, "ab", 0),
@@ -513,6 +528,24 @@ ScopeTable ==
                                                       [op |-> "add", rel |-> "DP", p |-> 2, x |-> 6, pos |-> 0] >>,
                                 !.max = [N |-> 1, L |-> 3, D |-> 3, P |-> 6, C |-> 2, I |-> 5, Q |-> 7, W |-> 4]],
     xf_port |-> XfPortScope,
+    \* four levels: a (holding a leaf) is instanced directly under top AND inside m, which is instanced twice
+    xf4 |-> [XfPortScope EXCEPT
+               !.init = << Cnew("N", "n"), Ccreate("NL", 1, "work", 0),
+                           Ccreate("LD", 1, "leaf", 0), Ccreate("LD", 1, "a", 0), Ccreate("LD", 1, "m", 0), Ccreate("LD", 1, "top", 0),
+                           Ccreate("DP", 1, "i", 1), Ccreate("DP", 2, "p", 1), Ccreate("DC", 2, "n", 1),
+                           Ccreate("DP", 3, "q", 1), Ccreate("DC", 3, "k", 1), Ccreate("DP", 4, "t", 1), Ccreate("DC", 4, "w", 2),
+                           Cchild(2, "l", 1), Cchild(3, "a0", 2), Cchild(4, "a1", 2), Cchild(4, "m1", 3), Cchild(4, "m2", 3),
+                           Csettopdef(1, 4) >>,
+               !.parents = {2, 3, 4}, !.max = [N |-> 1, L |-> 1, D |-> 4, P |-> 4, C |-> 3, I |-> 6, Q |-> 4, W |-> 4]],
+    \* a hierarchical cell WITHOUT ports (a self-contained block holding a leaf), next to the usual ones
+    xf_noport |-> [XfPortScope EXCEPT
+               !.init = << Cnew("N", "n"), Ccreate("NL", 1, "work", 0),
+                           Ccreate("LD", 1, "leaf", 0), Ccreate("LD", 1, "box", 0), Ccreate("LD", 1, "mid", 0), Ccreate("LD", 1, "top", 0),
+                           Ccreate("DP", 1, "i", 1), Ccreate("DC", 2, "n", 1),
+                           Ccreate("DP", 3, "a", 1), Ccreate("DC", 3, "k", 1), Ccreate("DP", 4, "t", 1), Ccreate("DC", 4, "w", 2),
+                           Cchild(2, "l", 1), Cchild(3, "b0", 2), Cchild(3, "l2", 1), Cchild(4, "b1", 2), Cchild(4, "m", 3),
+                           Csettopdef(1, 4) >>,
+               !.parents = {2, 3, 4}, !.max = [N |-> 1, L |-> 1, D |-> 4, P |-> 3, C |-> 3, I |-> 6, Q |-> 3, W |-> 4]],
     \* fixed hierarchy, mid (two-bit port a) instanced TWICE in top: uniquify has to clone it
     xf_port2 |-> [XfPortScope EXCEPT
                     !.init = << Cnew("N", "n"), Ccreate("NL", 1, "work", 0),
@@ -536,6 +569,24 @@ ScopeTable ==
                         !.max = [N |-> 1, L |-> 1, D |-> 3, P |-> 6, C |-> 2, I |-> 4, Q |-> 6, W |-> 4]],
     hier11 |-> HierScope({"C11"}, {}),
     hier12 |-> HierScope({"C12"}, {}),
+    \* the definition b is shared two levels up, through two DIFFERENT parent definitions: top/x1:X/a1:A/b1:B and top/y1:Y/a2:A/b1:B
+    hier_deep |-> [HierScope({"C11", "C12"}, {}) EXCEPT
+                     !.init = << Cnew("N", "n"), Ccreate("NL", 1, "lib", 0), Ccreate("LD", 1, "b", 0), Ccreate("LD", 1, "a", 0),
+                                 Ccreate("LD", 1, "x", 0), Ccreate("LD", 1, "y", 0), Ccreate("LD", 1, "top", 0),
+                                 Ccreate("DP", 1, "p", 1), Ccreate("DC", 1, "c", 1), Cconnect(1, IPin(1)),
+                                 Ccreate("DC", 2, "d", 1),
+                                 Cchild(2, "b1", 1), Cchild(3, "a1", 2), Cchild(4, "a2", 2), Cchild(5, "x1", 3), Cchild(5, "y1", 4),
+                                 Cconnect(2, OPin(1, 1)), Csettopdef(1, 5) >>,
+                     !.ops = {}, !.parents = {}, !.max = [N |-> 1, L |-> 1, D |-> 5, P |-> 1, C |-> 2, I |-> 6, Q |-> 1, W |-> 2]],
+    \* a pass-through cell: mid has two ports and a cable but NO children
+    hier12_pt |-> [HierScope({"C12"}, {}) EXCEPT
+                     !.init = << Cnew("N", "n"), Ccreate("NL", 1, "lib", 0), Ccreate("LD", 1, "leaf", 0), Ccreate("LD", 1, "mid", 0),
+                                 Ccreate("LD", 1, "top", 0),
+                                 Ccreate("DP", 1, "i", 1),
+                                 Ccreate("DP", 2, "p", 1), Ccreate("DP", 2, "r", 1), Ccreate("DC", 2, "n", 1),
+                                 Ccreate("DP", 3, "t", 1), Ccreate("DC", 3, "m", 2),
+                                 Csettopdef(1, 3), Cchild(3, "m", 2), Cchild(3, "x", 1), Cchild(3, "y", 1) >>,
+                     !.ops = {"b:connect"}, !.pos = {NoPos, 0}],
     \* mid has TWO ports (a feed-through cell is reachable: one inner wire tied to both)
     hier12_ft |-> [HierScope({"C12"}, {}) EXCEPT
                      !.init = << Cnew("N", "n"), Ccreate("NL", 1, "lib", 0), Ccreate("LD", 1, "leaf", 0), Ccreate("LD", 1, "mid", 0),
@@ -584,6 +635,14 @@ ScopeTable ==
                                        Cnew("I", "b"), Cnew("P", "A") >>,
                       !.ops = {"add:DP", "add:LD", "add:DI", "set_eid:P", "set_eid:D", "set_name:P", "set_name:D"},
                       !.max = [N |-> 1, L |-> 1, D |-> 3, P |-> 5, C |-> 1, I |-> 3, Q |-> 0, W |-> 0]],
+    \* the other direction: under the DEFAULT default, a stand-alone cell built under the EDIF policy whose cable and
+    \* instance (and port) share one name - legal in either policy - is added to a DEFAULT library
+    naming_adopt2 |-> [NamingScope("DEFAULT", {"add:LD", "add:DP"}) EXCEPT
+                      !.init = @ \o << Csetdefault("EDIF"), Cnew("D", "z"), Ccreate("DC", 3, "s", 0), Cchild(3, "s", 2),
+                                       Ccreate("DP", 3, "s", 0), Cnew("P", "z"), Csetdefault("DEFAULT") >>,
+                      !.ops = {"add:LD", "add:DP", "set_name:D", "set_eid:D"},
+                      !.max = [N |-> 1, L |-> 1, D |-> 3, P |-> 4, C |-> 2, I |-> 3, Q |-> 0, W |-> 0],
+                      !.lookupVals = {"a", "A", "b", "z", "s"}],
     \* a second library: its cells (a name that is free in the first library, and one that is taken there) are
     \* offered to the first library while they still belong to the second, and the other way round
     naming_two |-> [NamingScope("DEFAULT", {"add:DP", "new:C", "add:DC", "create:DC", "remove:DC", "set_name:C"}) EXCEPT
@@ -604,12 +663,12 @@ ScopeTable ==
        ops |-> {"add:DP", "create:DP", "create:PQ", "add:PQ", "remove:PQ", "remove:DP", "remove_from:DP",
                 "remove_from:PQ", "set_ref", "create_child", "remove:DI", "add:DI", "set_top_def",
                 "set_top", "new:P", "new:Q", "connect", "create_n:PQ"},
-       max |-> [N |-> 1, L |-> 1, D |-> 3, P |-> 5, C |-> 1, I |-> 3, Q |-> 6, W |-> 1],
+       max |-> [N |-> 1, L |-> 1, D |-> 3, P |-> 5, C |-> 1, I |-> 4, Q |-> 6, W |-> 1],
        names |-> {U, "a"}, vals |-> {}, pos |-> {NoPos}, createN |-> {0, 2}],
     mirror_add |->
       [init |-> MirrorInit,
        ops |-> {"new:P", "new:Q", "create:PQ", "add:DP", "add:PQ", "remove:DP", "remove:PQ", "set_ref"},
-       max |-> [N |-> 1, L |-> 1, D |-> 3, P |-> 5, C |-> 1, I |-> 2, Q |-> 6, W |-> 1],
+       max |-> [N |-> 1, L |-> 1, D |-> 3, P |-> 5, C |-> 1, I |-> 3, Q |-> 6, W |-> 1],
        names |-> {U, "a"}, vals |-> {}, pos |-> {NoPos, 0}, createN |-> {0}],
     contain |->
       [init |-> ContainInit,
